@@ -31,7 +31,7 @@ COMPONENTS = {
     "stub": ["nothing is stubbed inside a session; the 'schedule' dimension is the hash seed and insertion order"],
 }
 ASSUMPTIONS = ["a value whose hashing raises must raise in every session (then it has no identity anywhere)"]
-PROBES = ["frozenset_of_frozensets", "mixed_type_set", "roundtrip", "cross_session_cache_hit", "xor_split_task", "cf_session", "numpy_value", "file_value"]
+PROBES = ["frozenset_keyed_dict", "frozenset_of_frozensets", "mixed_type_set", "roundtrip", "cross_session_cache_hit", "xor_split_task", "cf_session", "numpy_value", "file_value"]
 N = {"quick": 24, "thorough": 400}
 JOBS = 2  # fresh interpreters do not scale in this sandbox (process start-up serialises)
 CASE_WALL = 300
@@ -72,7 +72,7 @@ def gen_value(ch, depth=0, hashable=False):
         items, seen = [], set()
         for _ in range(n):
             kk = gen_value(ch, depth + 1, hashable=True)
-            if kk["t"] in ("tuple", "frozenset") or json.dumps(kk) in seen:
+            if json.dumps(kk) in seen:
                 continue
             seen.add(json.dumps(kk))
             items.append([kk, gen_value(ch, depth + 1)])
@@ -124,6 +124,8 @@ def features(spec, out=None):
     elif t == "dict":
         if len(spec["items"]) >= 2:
             out.add("multi")
+            if spec["items"][0][0]["t"] == "frozenset":
+                out.add("frozenset_keyed_dict")
         for k, v in spec["items"]:
             features(k, out)
             features(v, out)
@@ -218,12 +220,12 @@ def run_case(case, ch, workdir):
     for sid in by[0]:
         rs = [b.get(sid, {}) for b in by]
         f = feats.get(sid, set())
-        for p in ("frozenset_of_frozensets", "mixed_type_set", "numpy_value", "file_value"):
+        for p in ("frozenset_of_frozensets", "mixed_type_set", "numpy_value", "file_value", "frozenset_keyed_dict"):
             if p in f:
                 probe(p)
         if "multi" in f or "xor" in f or "wf" in f:
             nontriv += 1
-        sig = "frozenset-of-frozensets" if "frozenset_of_frozensets" in f else "mixed-type-set" if "mixed_type_set" in f else "xor-task" if "xor" in f else "workflow" if "wf" in f else "value"
+        sig = "frozenset-keyed-dict" if "frozenset_keyed_dict" in f else "frozenset-of-frozensets" if "frozenset_of_frozensets" in f else "mixed-type-set" if "mixed_type_set" in f else "xor-task" if "xor" in f else "workflow" if "wf" in f else "value"
         errs = [("error" in r) for r in rs]
         spec_txt = json.dumps(next((s.get("value", s.get("spec", "")) for s in steps + sub_steps if s["id"] == sid), ""))[:300]
         if any(errs) and not all(errs):
